@@ -78,11 +78,23 @@ structure Svc where
   next : Nat := 0
   /-- handshake timeout (ms) -/
   tmo : Nat
+  /-- which task's waker the `LocalWaker` holds: the task most recently answered "unavailable"
+  (`LocalWaker::register` REPLACES whatever was stored) -/
+  regW : Nat := 0
+  /-- per-task wake flags (the harness polls readiness from several tasks = distinct wakers) -/
+  wokenW : Nat → Bool := fun _ => false
 
-/-- `AcceptorService::poll_ready`: `self.conns.available(cx)`; second component `true` = `Ready` -/
-def Svc.pollReady (s : Svc) : Svc × Bool :=
-  ({ s with registered := (Src.ucAvailable s.count s.cap s.registered).2, woken := false },
+/-- `AcceptorService::poll_ready` from task `w` (its own waker in `cx`): `self.conns.available(cx)`;
+second component `true` = `Ready`.  An "unavailable" answer registers `w`'s waker, replacing the one
+stored before; an "available" answer touches nothing.  The polling task's own wake flag is consumed. -/
+def Svc.pollReadyW (s : Svc) (w : Nat) : Svc × Bool :=
+  ({ s with registered := (Src.ucAvailable s.count s.cap s.registered).2, woken := false,
+            regW := if (Src.ucAvailable s.count s.cap s.registered).1 then s.regW else w,
+            wokenW := upd s.wokenW w false },
    (Src.ucAvailable s.count s.cap s.registered).1)
+
+/-- `poll_ready` from task 0 -/
+def Svc.pollReady (s : Svc) : Svc × Bool := s.pollReadyW 0
 
 /-- `AcceptorService::call` at time `now` on a service whose handshake timeout is `tmo`: takes a guard
 of the thread's counter (`conns.get()`), arms `sleep(tmo)`.  Every acceptor service built on a thread
@@ -96,7 +108,8 @@ def Svc.call (s : Svc) (now : Nat) : Svc := s.callT s.tmo now
 /-- drop of a `CounterGuard`: `dec`, which wakes the registered task iff the kernel says so -/
 def Svc.release (s : Svc) : Svc :=
   if (Src.ucDec s.count s.cap false).2 then
-    { s with count := (Src.ucDec s.count s.cap false).1, registered := false, woken := s.woken || s.registered }
+    { s with count := (Src.ucDec s.count s.cap false).1, registered := false, woken := s.woken || s.registered,
+             wokenW := if s.registered then upd s.wokenW s.regW true else s.wokenW }
   else { s with count := (Src.ucDec s.count s.cap false).1 }
 
 /-- poll accept future `k` at `now` with the handshake answering `hs`; a resolved future is dropped
@@ -125,6 +138,8 @@ def Svc.inProgress (s : Svc) : Nat := aliveBelow s.futs s.next
 
 inductive Op where
   | ready
+  /-- `poll_ready` from task `w` -/
+  | readyW (w : Nat)
   | call (now : Nat)
   /-- a call through another service of the same thread (built from another factory / a clone), whose
   handshake timeout is `tmo` -/
@@ -135,6 +150,7 @@ deriving Repr
 
 def Svc.step (s : Svc) : Op → Svc
   | .ready => s.pollReady.1
+  | .readyW w => (s.pollReadyW w).1
   | .call now => s.call now
   | .callT tmo now => s.callT tmo now
   | .poll k now hs => (s.pollK k now hs).1
